@@ -194,11 +194,33 @@ func c12NameFor(path string) string {
 	return "aa"
 }
 
+const c12ChainDomain = "gno.land"
+
+// c12ConfusedDomains are host names that contain the chain domain as a strict
+// string prefix or suffix, or differ from it by case / a trailing dot / one
+// character. The first rows are syntactically valid domains, so nothing but an
+// exact comparison of the domain segment keeps them out.
+var c12ConfusedDomains = []string{
+	c12ChainDomain + "ing", c12ChainDomain + "x", c12ChainDomain + "s", c12ChainDomain + ".example.com", c12ChainDomain + ".co", c12ChainDomain + ".land",
+	"x" + c12ChainDomain, "x." + c12ChainDomain, "my-" + c12ChainDomain, "test3." + c12ChainDomain, "gno.lan", "gno.lands", "gno-land.land", "gnoo.land",
+	// not valid host names (digit/hyphen in the TLD, trailing dot, case, port, userinfo)
+	c12ChainDomain + "2", c12ChainDomain + "-x", c12ChainDomain + "_x", c12ChainDomain + ".", c12ChainDomain + "..com", "Gno.land", "gno.Land", "GNO.LAND",
+	c12ChainDomain + ":443", "user@" + c12ChainDomain, c12ChainDomain + "%2e", c12ChainDomain + "\u2024com",
+}
+
+// c12DomainConfusion keeps everything after the domain of a valid base path.
+func c12DomainConfusion(rt *rapid.T, base string) string {
+	return rapid.SampledFrom(c12ConfusedDomains).Draw(rt, "domain") + base[len(c12ChainDomain):]
+}
+
 func c12DrawDeploy(rt *rapid.T, addr string) c12Deploy {
 	base := rapid.SampledFrom(c12BasePaths).Draw(rt, "base")
 	d := c12Deploy{Path: base}
-	if rapid.IntRange(0, 3).Draw(rt, "hostile?") == 0 {
+	switch rapid.IntRange(0, 11).Draw(rt, "hostile?") {
+	case 0, 1:
 		d.Path = c12Hostile(rt, base, addr)
+	case 2, 3:
+		d.Path = c12DomainConfusion(rt, base)
 	}
 	d.Name = c12NameFor(d.Path)
 	if rapid.IntRange(0, 9).Draw(rt, "badname") == 0 {
@@ -304,11 +326,14 @@ var c12SegRe = regexp.MustCompile(`^[a-z][a-z0-9]*([_-][a-z0-9]+)*$`)
 // letter, lower-case alphanumerics with single '_'/'-' separators between
 // them, at most 256 bytes, not ending in _test or _filetest.
 func c12ValidPath(p string) (realm bool, ok bool) {
-	if len(p) > 256 || !strings.HasPrefix(p, "gno.land/") {
+	all := strings.Split(p, "/")
+	// the first segment (the domain) must be the chain domain exactly, not a
+	// string that merely starts or ends with it
+	if len(p) > 256 || len(all) < 3 || all[0] != c12ChainDomain {
 		return false, false
 	}
-	segs := strings.Split(p[len("gno.land/"):], "/")
-	if len(segs) < 2 || (segs[0] != "r" && segs[0] != "p") {
+	segs := all[1:]
+	if segs[0] != "r" && segs[0] != "p" {
 		return false, false
 	}
 	for _, s := range segs[1:] {
@@ -556,6 +581,9 @@ func c12Exec(ctx *vk.Ctx, c c12Case) error {
 					}
 					if _, ok := c12ValidPath(d.Path); !ok {
 						ctx.Class("refused-hostile-path")
+						if dom, _, _ := strings.Cut(d.Path, "/"); dom != c12ChainDomain && (strings.HasPrefix(dom, c12ChainDomain) || strings.HasSuffix(dom, c12ChainDomain)) {
+							ctx.Class("refused-domain-has-chain-domain-as-affix")
+						}
 					} else if c.Registry && !c12Authorized(e.keys, op.Creator, d.Path) {
 						ctx.Class("refused-valid-path-unauthorized-creator")
 					}
@@ -705,7 +733,7 @@ func c12DiffMaps(a, b map[string][]byte) string {
 func TestC12_CodeImmutable(t *testing.T) {
 	vk.Run(t, vk.Spec[c12Case]{
 		ID: "C12", Name: "TestC12_CodeImmutable",
-		Rule: "rapid: 4-10 transactions (one per block) on the real app, with or without a namespace registry realm at gno.land/r/sys/names: add-package txs of 1-2 messages over 12 colliding base paths (/r/, /p/, versioned, three namespaces) and ~45 hostile variants (case, '/', '//', '..', unicode look-alike, _test/_filetest, /e/ run paths, other domains, '#', ':', NUL, %-escapes, over-long, bad separators), 6 file sets (prod only, with _test, several files + README, test-only, with _filetest, LICENSE), 4 content versions, public/private, 3 creators, mismatching package names; interleaved with 21 kinds of writes to the state of a /p/ package from MsgRun and from a realm; non-trivial = an accepted deployment was followed by a colliding attempt on the same path, or a /p/ mutation attempt ran",
+		Rule: "rapid: 4-10 transactions (one per block) on the real app, with or without a namespace registry realm at gno.land/r/sys/names: add-package txs of 1-2 messages over 12 colliding base paths (/r/, /p/, versioned, three namespaces) 26 confused domains (chain domain as strict prefix/suffix of the host name, case, trailing dot, port) and ~45 hostile variants (case, '/', '//', '..', unicode look-alike, _test/_filetest, /e/ run paths, other domains, '#', ':', NUL, %-escapes, over-long, bad separators), 6 file sets (prod only, with _test, several files + README, test-only, with _filetest, LICENSE), 4 content versions, public/private, 3 creators, mismatching package names; interleaved with 21 kinds of writes to the state of a /p/ package from MsgRun and from a realm; non-trivial = an accepted deployment was followed by a colliding attempt on the same path, or a /p/ mutation attempt ran",
 		Draw: c12Draw,
 		Exec: c12Exec,
 	})
